@@ -91,7 +91,9 @@ fn lmer_laws<V: Vmer + Clone>(name: &str, s: &[u8], c: &mut Case) -> Result<u64,
 
 fn c12_case(c: &mut Case) -> Result<(), String> {
     let fixed = [0usize, 1, 2, 31, 32, 33, 63, 64, 65, 95, 96, 97, 127, 128, 129, 160, 192];
-    let n = if c.rng.chance(1, 2) { *c.rng.pick(&fixed) } else { c.rng.below(301) };
+    let long = !c.lane_miri && c.rng.chance(1, 1500);
+    if long { c.count("strings_longer_than_65000", 1); }
+    let n = if long { (1usize << c.rng.range(16, 17)) + *c.rng.pick(&[0usize, 1, 31, 32, 33]) - c.rng.below(2) * 37 } else if c.rng.chance(1, 2) { *c.rng.pick(&fixed) } else { c.rng.below(301) };
     let alpha = *c.rng.pick(&[1usize, 2, 4, 4, 4]);
     let mut s = c.rng.bases(n, alpha);
     if c.rng.chance(1, 6) && n >= 2 {
@@ -249,6 +251,7 @@ pub fn run_c12(ctx: &Ctx) {
         ctx.require("exts_values", 256);
         ctx.require("kmer_commutation_checks", 100_000);
         ctx.require("strings_multiple_of_32", 1000);
+        ctx.require("strings_longer_than_65000", 50);
         ctx.require("kmer_palindromes", 1000);
     }
 }
